@@ -449,8 +449,56 @@ class Core:
             ctx.check("callers/sources", qn, bad is None, f, "reported certificates", bad or "", node=f.node,
                       detail="%d interpreted paths: every reported certificate is built from a get_certificate_der result" % len(paths))
 
+    # ================================================================== (F) the certificate reference
+    def find_cert(self):
+        """find_certificate(certificates, signer_info): a certificate it returns must have been compared equal to the
+        SignerInfo's sid in issuer AND serial number on that path (positively unequal field -> violation)"""
+        ctx = self.ctx
+        f = self.m.func("APK.find_certificate")
+        ctx.analysed(f)
+        CERTS = ("in", "certificates")
+        FIELDS = ("issuer", "serial_number")
+
+        def run(decisions):
+            r = Run(self, decisions, None)
+            it = r.it
+            r.stubs = {"APK.canonical_name": lambda it_, fv, loc, node: Sym(("canonical_name", term_of([v for k, v in loc.items() if k != "self"][0])))}
+            try:
+                val = it.call(it.get_attr(Obj(self.apk), f.node.name), [Sym(CERTS), Sym(SI)], {})
+                out = ("return", val)
+            except PyRaise as e:
+                out = ("raise", e.name, e.node)
+            return it, out
+        try:
+            paths = all_paths(run, max_runs=4000)
+        except NotEvaluable as e:
+            raise AnalysisError("find_certificate left the interpretable fragment: %s" % e)
+        n_ret = 0
+        bad = None
+        for it, out in paths:
+            if out[0] != "return" or out[1] is None:
+                continue
+            R = out[1]
+            if not (isinstance(R, Sym) and R.term[0] == "elem" and R.term[1] == CERTS):
+                raise AnalysisError("find_certificate returns %r: not an element of the certificate bag" % (R,))
+            n_ret += 1
+            for fld in FIELDS:
+                cmps = [(opn, a, b, res) for opn, a, b, res, node, q in it.sym_cmps if opn in ("Eq", "NotEq")
+                        and ((has_subterm(a, R.term) and has_subterm(a, fld) and has_subterm(b, SI)) or (has_subterm(b, R.term) and has_subterm(b, fld) and has_subterm(a, SI)))]
+                if not cmps:
+                    raise AnalysisError("cannot tell how find_certificate compares the %s of a certificate with the SignerInfo's sid" % fld)
+                equal = [c for c in cmps if (c[3] if c[0] == "Eq" else not c[3])]
+                if not equal and bad is None:
+                    bad = "find_certificate returns certificate #%d of the bag although its %s was compared with the sid and found different [%s]" % (R.term[2] + 1, fld, self._path_desc(it))
+        ctx.count("find_certificate_paths", len(paths))
+        ctx.count("find_certificate_returns", n_ret)
+        ctx.check("signer/certificate-reference", "find_certificate returns only a certificate whose issuer and serial number equal the sid", bad is None, f,
+                  "returned certificate vs sid", bad or "", node=f.node,
+                  detail="%d interpreted paths, %d return a certificate; issuer and serial number compared equal on each" % (len(paths), n_ret))
+
     def run(self):
         self.signer()
+        self.find_cert()
         self.der()
         self.callers()
 
@@ -465,6 +513,7 @@ def run(ctx):
     ctx.floor("signer_paths", 20)
     ctx.floor("certificate_paths_with_attrs", 1)
     ctx.floor("certificate_paths_without_attrs", 1)
+    ctx.floor("find_certificate_returns", 1)
     ctx.floor("der_paths", 6)
     ctx.floor("der_certificate_paths", 3)
     ctx.floor("der_calls", 2)
